@@ -281,6 +281,14 @@ func (s *sup) execute(exec, start *core.FuncDecl) {
 				armed = true
 				a.requireGuard("R5c", name+"/arm-retry", g, i, false, fand(current, armWant), "arming the retry timer")
 			}
+			// the back-off is advanced (NextBackOff consumes a step of the container's shared back-off) only
+			// for a failed exit of the current, still registered instance: a superseded instance that was
+			// cancelled must not use up retries of its successor
+			if (ev.Kind == core.KCall || ev.Kind == core.KEnter) && ev.Callee != nil && ev.Callee.Name() == "NextBackOff" && ev.Call != nil {
+				if fv := fieldVar(callRecv(ev.Call), ev.Frame); fv != nil && core.FieldName(fv) == retryBo {
+					a.requireGuard("R5c", name+"/advance-backoff", g, i, false, fand(current, fand(regd, fnot(fld(s.f("success"))))), "advancing the back-off")
+				}
+			}
 			if (ev.Kind == core.KCall || ev.Kind == core.KEnter) && ev.Callee != nil && ev.Callee.Name() == "Reset" && strings.Contains(core.ExprString(ev.Call.Fun), "retryBo") {
 				resetJudged[ev.Call.Pos()] = true
 				a.requireGuard("R5c", name+"/reset-backoff", g, i, false, fand(current, fld(s.f("success"))), "resetting the back-off")
@@ -416,18 +424,66 @@ func (s *sup) api(start, exec *core.FuncDecl) {
 			entries = append(entries, core.Entry{Decl: d})
 		}
 	}
+	// the context setters: exported methods with a context parameter that (directly or through a
+	// same-package helper handed the parameter) is assigned to the container's ctx field
+	ctxSetter := map[*types.Func]bool{}
+	for _, en := range entries {
+		d := en.Decl
+		cp := paramWhere(d, isContextType)
+		if cp == nil {
+			continue
+		}
+		var stores func(dd *core.FuncDecl, v *types.Var, depth int) bool
+		stores = func(dd *core.FuncDecl, v *types.Var, depth int) bool {
+			found := false
+			ast.Inspect(dd.Decl.Body, func(n ast.Node) bool {
+				if found {
+					return false
+				}
+				if rhs, ok := assignsFieldNode(dd, n, s.ctxFld); ok && rhs != nil {
+					if identVar(rhs, &core.Frame{Pkg: dd.Pkg}) == v {
+						found = true
+					}
+				}
+				if call, ok := n.(*ast.CallExpr); ok && depth < 2 {
+					if f, _ := typeutil.Callee(dd.Pkg.TypesInfo, call).(*types.Func); f != nil && f.Pkg() == dd.Obj.Pkg() {
+						if hd := c.Prog.Decl(f.Origin()); hd != nil && hd != dd {
+							hps := paramVars(hd)
+							for ai, arg := range call.Args {
+								if identVar(arg, &core.Frame{Pkg: dd.Pkg}) == v && ai < len(hps) && hps[ai] != nil && stores(hd, hps[ai], depth+1) {
+									found = true
+								}
+							}
+						}
+					}
+				}
+				return !found
+			})
+			return found
+		}
+		if stores(d, cp, 0) {
+			ctxSetter[d.Obj] = true
+		}
+	}
 	for _, cb := range s.retryTimers(start) {
 		entries = append(entries, cb.entry())
 	}
 	sortEntries(entries)
 	for _, e := range entries {
 		e := e
+		// a context setter: an exported method with a context parameter some path of which stores that
+		// parameter into the container's ctx field
+		var entryCtx *types.Var
+		if e.Decl != nil && ctxSetter[e.Decl.Obj] {
+			entryCtx = paramWhere(e.Decl, isContextType)
+		}
 		c.Walk("R4", &core.Config{Follow: follow, Unroll: 1}, e, func(p *core.Path) {
 			g := prepare(c, p)
 			cancelCalls := 0
 			ctxStored := map[*types.Var]bool{} // locals stored into the container ctx on this path
 			ctxStoredTerm := map[string]bool{}
 			ctxLoaded := map[*types.Var]int{} // locals that hold the value read from the container ctx field
+			ctxParamStored := false              // the entry's own context parameter was stored into the container ctx field
 			var retryStops []int
 			started, detached, rearmed := false, false, false
 			var lookupOK *types.Var // the comma-ok variable of the latest lookup in the slot
@@ -489,6 +545,13 @@ func (s *sup) api(start, exec *core.FuncDecl) {
 				if assignsField(ev, s.ctxFld, "") {
 					for k := range ctxLoaded {
 						delete(ctxLoaded, k)
+					}
+					if entryCtx != nil && ev.Rhs != nil {
+						for _, v := range []*types.Var{identVar(ev.Rhs, ev.Frame), aliasOf(p, ev, ev.Rhs)} {
+							if v == entryCtx {
+								ctxParamStored = true
+							}
+						}
 					}
 				}
 				if assignsField(ev, s.ctxFld, "") && ev.Rhs != nil {
@@ -592,6 +655,17 @@ func (s *sup) api(start, exec *core.FuncDecl) {
 				a.note("R5a", enclosingName(c, ev)+"/retry-stopped", ev.Pos, !okv,
 					"a path that stops the retry timer starts, detaches or re-arms the record, or has no context",
 					"the retry timer of a record is stopped and forgotten on a path that neither starts the routine, detaches the record, re-arms the timer nor has a nil context: a failed routine that stays wanted is never retried (conditions: "+litsString(lits)+")", p)
+			}
+			// a context setter stores its context argument on every path, unless the path has shown it
+			// equal to the container's current context (nothing to do)
+			if entryCtx != nil && p.End == core.EndReturn {
+				okc := ctxParamStored
+				if !okc {
+					okc, _ = implies(g.litsBefore(len(p.Events), false), eq(c.Role(entryCtx), s.ctxFld))
+				}
+				a.note("R12", entryName(e)+"/stores-context", e.Decl.Decl.Pos(), !okc,
+					"every path of the context setter stores the new context, or has found it equal to the current one",
+					"a path of the context setter returns without storing its context argument although it may differ from the container's current context: the container keeps the replaced (or cleared) context, and a later restart, new routine or retry runs under it", p)
 			}
 			// R4 (c): SetContext with a different context cancels every record it keeps running
 			if p.End == core.EndReturn && strings.HasSuffix(entryName(e), ".SetContext") {
@@ -1116,6 +1190,35 @@ func (s *sup) routineExtras() {
 				}
 			})
 		}
+	}
+	if rebuild != nil {
+		// the rebuild hands its decision (a routine, or none) to the inner container on every path: a
+		// routine record that merely is not running at the moment (no context yet, exited, retry pending)
+		// still holds the previous state and would be started with it later
+		setters := map[*types.Func]bool{}
+		for _, sd := range declsWhere(c, "routine", func(dd *core.FuncDecl, n ast.Node) bool {
+			_, ok := assignsFieldNode(dd, n, "routine.RoutineContainer.routine")
+			return ok
+		}) {
+			setters[sd.Obj] = true
+		}
+		rname := core.FuncName(rebuild.Obj)
+		c.Walk("R12", &core.Config{Follow: func(f *types.Func) bool {
+			return helperFollow("routine", "start", "execute")(f) && !setters[f.Origin()]
+		}}, core.Entry{Decl: rebuild}, func(p *core.Path) {
+			if p.End != core.EndReturn {
+				return
+			}
+			handed := false
+			for _, ev := range p.Events {
+				if (ev.Kind == core.KCall || ev.Kind == core.KEnter) && ev.Callee != nil && setters[ev.Callee.Origin()] {
+					handed = true
+				}
+			}
+			a.note("R12", rname+"/hands-routine-to-container-on-every-path", rebuild.Decl.Pos(), !handed,
+				"every path of the rebuild installs (or clears) the routine in the inner container",
+				"a path of the rebuild returns without installing or clearing the routine in the inner container: a record built from the previous state stays installed and is started with that state by a later SetContext, restart or retry", p)
+		})
 	}
 	if d := litDecl; d != nil {
 		name := core.FuncName(rebuild.Obj)
